@@ -1447,7 +1447,8 @@ func call(n *node) {
 			for i, v := range values {
 				switch {
 				case variadic >= 0 && i >= variadic:
-					if v(f).Type() == vararg.Type() {
+					if hasVariadicArgs {
+						// The argument is the variadic parameter itself, as in f(s...).
 						vararg.Set(v(f))
 					} else {
 						vararg.Set(reflect.Append(vararg, v(f)))
